@@ -247,6 +247,10 @@ Definition e2e_cleanup_ok (ce : pcase * e2e_t) : bool :=
 Definition st_of_obs (l : obs) : st := List.map (fun x => {| lin := ms_of_list (fst x); lout := ms_of_list (snd x) |}) l.
 Definition cert_live_ok (o : observed) : bool :=
   if reached_liveness o then match prog_regs_of o with Some pr => closed_b (p pr) (st_of_obs (o_live o)) | None => true end else true.
+(* the other half on large functions: with the harness's rank certificate, nothing is reported live that no
+   path reads (Proofs/LiveCert.v: closed + supported = exactly path liveness) *)
+Definition cert_exact_ok (rks : list rank_t) (o : observed) : bool :=
+  if reached_liveness o then match prog_regs_of o with Some pr => supported_b (p pr) (st_of_obs (o_live o)) rks | None => true end else true.
 Definition cert_alloc_ok (rf : regfile) (o : observed) : bool :=
   if reached_alloc o then
     match prog_regs_of o with
